@@ -192,7 +192,7 @@ def state_of(e):
     return (s.l1,) if s.l2 is None else (s.l1, s.l2)
 
 
-def replay(m, trace, kind, latlon=False, tol=1e-9, unit=1.0):
+def replay(m, trace, kind, latlon=False, tol=1e-9, unit=1.0, resync=False):
     """Re-score matcher m's lattice_best with the documented model.
     -> list of (tag, message); tags: 'score' (C02), 'geom' and 'cut' (C05).  Also returns the number of checked states."""
     v = []
@@ -330,6 +330,10 @@ def replay(m, trace, kind, latlon=False, tol=1e-9, unit=1.0):
         if not close(e.logprob, lp, ltol):
             v.append(("score", f"[{j}] {e.key}: reported logprob {e.logprob} != model {lp} for this path prefix"))
             R["mismatch_at"] = j
+            if resync:
+                # judge every later step on its own, given the REPORTED values of its predecessor: a mismatch then names
+                # exactly one inconsistent link of the chain instead of all its descendants
+                R.update(lp=e.logprob, lpe=e.logprobe, lpne=e.logprobne)
         if e.length != length:
             v.append(("score", f"[{j}] {e.key}: reported length {e.length} != number of emitting states {length}"))
         if k > 0 and (not close(e.logprobe, lpe, ltol) or not close(e.logprobne, lpne, ltol)):
